@@ -22,6 +22,8 @@ pub struct Case {
     pub phase2: usize,
     /// the program again, with some runs of words replaced by reserved (.blkw) words
     pub reload: Vec<Option<u16>>,
+    /// the timer is created with the exact count `a` and widened to its range with set_range before it is attached
+    pub widened: bool,
 }
 
 pub fn decode(tape: &[u32]) -> Case {
@@ -48,7 +50,8 @@ pub fn decode(tape: &[u32]) -> Case {
             }
         }
     }
-    Case { prog, real, init, timer, half_open, phase2, reload }
+    let widened = t.chance(1, 3);
+    Case { prog, real, init, timer, half_open, phase2, reload, widened }
 }
 
 fn mem_digest(sim: &Simulator) -> u64 {
@@ -67,7 +70,22 @@ fn trace(c: &Case, st: &mut Stats) -> Vec<(u16, u16, [u16; 8], u64, u64)> {
     let spec = spec_for_prog(&c.prog, c.real, false, c.init);
     let mut rig = build_rig(&spec);
     if let Some((seed, a, b, prio)) = c.timer {
-        let mut tm = if c.half_open { TimerDevice::new(Some(seed), a..b + 1, 0x81, prio) } else { TimerDevice::new(Some(seed), a..=b, 0x81, prio) };
+        let mut tm = if c.widened {
+            // a seeded timer that starts with an exact count and is given its range afterwards
+            let mut tm = TimerDevice::new(Some(seed), a..=a, 0x81, prio);
+            if c.half_open {
+                tm.set_range(a..b + 1);
+            } else {
+                tm.set_range(a..=b);
+            }
+            tm.reset_remaining();
+            st.class("timer-created-exact-then-widened");
+            tm
+        } else if c.half_open {
+            TimerDevice::new(Some(seed), a..b + 1, 0x81, prio)
+        } else {
+            TimerDevice::new(Some(seed), a..=b, 0x81, prio)
+        };
         tm.enabled = true;
         rig.sim.device_handler.add_device(tm, &[]).unwrap();
     }
@@ -190,7 +208,7 @@ pub fn check(tape: &[u32], st: &mut Stats) -> Result<(), String> {
     } else {
         st.class("seeded-init");
     }
-    for k in ["history:run-reset-load-run", "history:run-reload-run"] {
+    for k in ["history:run-reset-load-run", "history:run-reload-run", "timer-created-exact-then-widened"] {
         if local.classes.contains_key(k) {
             st.class(k);
         }
@@ -215,13 +233,15 @@ pub fn describe(tape: &[u32]) -> Value {
 
 pub fn run(ctx: &Ctx) -> Outcome {
     let mut out = Outcome::new(
-        "generated programs x 64-bit seeds x seeded timer ranges (vector x81 without handler, so the OS's missing-handler routine runs) x real/virtual traps; two independently built simulators must produce identical traces: per step PC, PSR, R0-R7, instruction count, a digest of all 65536 words incl. initialisation masks every 64 steps, final output and final memory digest; in two thirds of the cases the history goes on after the program has ended - (reset,) an object file with the program and some reserved (.blkw) words is loaded over the used machine and up to 1500 more steps are traced; \
+        "generated programs x 64-bit seeds x seeded timer ranges (a third of the timers are created with an exact count and widened with set_range afterwards; vector x81 without handler, so the OS's missing-handler routine runs) x real/virtual traps; two independently built simulators must produce identical traces: per step PC, PSR, R0-R7, instruction count, a digest of all 65536 words incl. initialisation masks every 64 steps, final output and final memory digest; in two thirds of the cases the history goes on after the program has ended - (reset,) an object file with the program and some reserved (.blkw) words is loaded over the used machine and up to 1500 more steps are traced; \
          Known{v}: every register and every word of x3000-xFDFF equals v, the I/O page is zero, and a word below x3000 may differ from v only if it is identical for another fill value (OS image); non-trivial = Seeded initialisation or a timer interrupt fired; distinct by tape",
     );
-    let cfg = TapeCfg::new(ctx, 120, 5_000, 600);
+    let mut cfg = TapeCfg::new(ctx, 120, 5_000, 600);
+    // a reproducibility failure is not a deterministic function of the tape: keep the shrink phase short
+    cfg.shrink_iters = 300;
     out.shards = cfg.shards;
     out.absorb(tape_search(ctx, "main", &cfg, check, describe));
-    out.essential = vec!["seeded-init".into(), "known-init".into(), "timer-interrupt-fired".into(), "history:run-reset-load-run".into(), "history:run-reload-run".into()];
+    out.essential = vec!["seeded-init".into(), "known-init".into(), "timer-interrupt-fired".into(), "history:run-reset-load-run".into(), "history:run-reload-run".into(), "timer-created-exact-then-widened".into()];
     out
 }
 
